@@ -146,9 +146,9 @@ Definition m_final (es : list entry) : bool :=
   end.
 
 (* M4 (C04): no goroutine stayed inside get() for more than 20 heartbeat periods with capacity free;
-   the case finished; no panic *)
+   the case finished; no panic; in the directed prompt-wakeup cases the sleeper was woken by back() (216) *)
 Definition m_live (es : list entry) : bool :=
-  negb (has_kind 210 es) && negb (has_kind 215 es) && negb (has_kind 214 es).
+  negb (has_kind 210 es) && negb (has_kind 215 es) && negb (has_kind 214 es) && negb (has_kind 216 es).
 
 Definition pool_monitor (kind capz : Z) (es : list entry) : bool :=
   m_live es && m_final es && negb (has_kind 212 es) &&
